@@ -88,6 +88,12 @@ pub enum Act {
         oi_cap: Option<u128>,
         holding_cap: Option<u128>,
     },
+    /// DepositMargin with a free-form vAMM string (crafted key collisions)
+    DepRaw {
+        by: String,
+        vamm: String,
+        amt: u128,
+    },
     EngConfig {
         by: String,
         imr: Option<u128>,
@@ -157,6 +163,7 @@ impl Act {
             | Act::RemoveVamm { by, .. }
             | Act::Shutdown { by }
             | Act::Whitelist { by, .. }
+            | Act::DepRaw { by, .. }
             | Act::EngConfig { by, .. }
             | Act::VammConfig { by, .. }
             | Act::VammCaps { by, .. } => Some(by),
@@ -172,6 +179,7 @@ impl Act {
                 | Act::Wd { .. }
                 | Act::Liq { .. }
                 | Act::Fund { .. }
+                | Act::DepRaw { .. }
         )
     }
     pub fn kind(&self) -> &'static str {
@@ -191,6 +199,7 @@ impl Act {
             Act::Shutdown { .. } => "shutdown",
             Act::Whitelist { .. } => "whitelist",
             Act::VammCaps { .. } => "vamm_caps",
+            Act::DepRaw { .. } => "deposit_raw",
             Act::EngConfig { .. } => "engine_config",
             Act::VammConfig { .. } => "vamm_config",
             Act::Note(_) => "note",
@@ -491,6 +500,10 @@ pub fn apply_fault(w: &mut World, a: &Act, fail_at: Option<u32>) -> Outcome {
                 0,
                 fail_at,
             )
+        }
+        Act::DepRaw { by, vamm, amt } => {
+            let msg = EngineExec::DepositMargin { vamm: vamm.clone(), amount: Uint128::new(*amt) };
+            w.exec_full(by, &eng, &msg, if native { *amt } else { 0 }, fail_at)
         }
         Act::EngConfig { by, imr, mmr, plr, lf } => w.exec_full(
             by,
